@@ -78,6 +78,12 @@ def gen_cases(rng, tier, info):
         for mode in ("flush", "into_inner", "drop"):
             cp_cmds.append("(x_cp_roundtrip_pkg %d %s %s)" % (cp, X.enc_str(sample), mode))
             cp_cmds.append("(x_cp_roundtrip_pkg %d %s %s)" % (cp, X.enc_str(sample * 3 + "a"), mode))
+        # text whose stored bytes begin like a byte order mark must come back unchanged too
+        if cp in (1252, 28591):
+            cp_cmds.append("(x_cp_roundtrip_pkg %d %s into_inner)" % (cp, X.enc_str("ÿþab")))
+            cp_cmds.append("(x_cp_roundtrip_pkg %d %s flush)" % (cp, X.enc_str("ï»¿xyz")))
+        if cp == 65001:
+            cp_cmds.append("(x_cp_roundtrip_pkg %d %s drop)" % (cp, X.enc_str("\ufeffmarked")))
     cases.append(Case("codepages", cp_cmds, ("cp",)))
     info.update({"histories": n, "code_page_roundtrips": len(cp_cmds)})
     return cases
